@@ -22,6 +22,10 @@ KNOWN_SEEDS = [
     ("operator-overload-of-wrong-arity-cast", _PUNKT + 'Die Funktion f gibt eine Zahl zurück, macht:\n\tGib 1 zurück.\nUnd überlädt den "als" Operator.\n\nDer Punkt p ist ein Punkt.\nDie Zahl a ist p als Zahl.\n'),
     ("generic-function-instantiating-itself-with-a-bigger-type", 'Die generische Funktion f mit dem Parameter a vom Typ T, gibt nichts zurück, macht:\n\tDie T Liste l ist eine leere T Liste.\n\tf l.\nUnd kann so benutzt werden:\n\t"f <a>"\n\nf 1.\n'),
     ("variable-named-like-a-kombination-then-field-access", _PUNKT + 'Der Punkt p ist ein Punkt.\nWenn wahr, dann:\n\tDie Zahl Punkt ist 1.\n\tDie Zahl y ist x von p.\n'),
+    ("kombination-with-a-field-of-unknown-type-sharing-its-alias-with-a-kombination", 'Wir nennen die Kombination aus\n\tder Zahl y mit Standardwert 0,\neinen Korb, und erstellen sie so:\n\t"ein Ding mit <y>"\n\nWir nennen die Kombination aus\n\tdem Gibtsnicht x mit Standardwert 0,\neinen Kasten, und erstellen sie so:\n\t"ein Ding mit <x>"\n'),
+    ("kombination-with-a-field-of-unknown-type-sharing-its-alias-with-a-function", 'Die Funktion foo mit dem Parameter z vom Typ Zahl, gibt nichts zurück, macht:\n\tDie Zahl q ist 1.\nUnd kann so benutzt werden:\n\t"ein Ding mit <z>"\n\nWir nennen die Kombination aus\n\tdem Gibtsnicht x mit Standardwert 0,\n\tder Zahl y mit Standardwert 0,\neinen Kasten, und erstellen sie so:\n\t"ein Ding mit <x>" oder\n\t"ein Ding mit <y>"\n'),
+    ("import-statement-in-a-generic-function-body", 'Die generische Funktion f mit dem Parameter a vom Typ T, gibt nichts zurück, macht:\n\tBinde "Duden/Ausgabe" ein.\nUnd kann so benutzt werden:\n\t"f <a>"\n\nf 1.\n'),
+    ("import-statement-in-a-generic-function-body-after-code", 'Die generische Funktion f mit dem Parameter a vom Typ T, gibt ein T zurück, macht:\n\tDas T b ist a.\n\tBinde "Duden/Zahlen" ein.\n\tGib b zurück.\nUnd kann so benutzt werden:\n\t"f <a>"\n\nDie Zahl z ist f 1.\nDer Text t ist f "x".\n'),
     ("list-alias-initialised-by-repetition", 'Wir nennen eine Zahlen Liste auch eine Reihung.\nDie Reihung r ist 2 Mal 1.\n'),
     ("alias-declaration-as-if-body", _ALIAS_FN + 'Wenn wahr, Der Alias "bar" steht für die Funktion foo.\n'),
     ("alias-declaration-as-else-body", _ALIAS_FN + 'Wenn falsch, foo.\nSonst Der Alias "bar" steht für die Funktion foo.\n'),
